@@ -88,6 +88,10 @@ def run(ctx):
                       "(one-argument .get(name) followed by an `is None` fallback)", floor=1)
     ctx.rule("R15.i", "serialization is a function of the current value only: every return of serialize_parameter_value is the encoding, made in that call, of the value read in that call "
                       "(cls.dumps(<parameter>.serialize(<value>))); writers of serializer state that outlives a call (class attributes, module globals) are listed for triage", floor=1)
+    ctx.rule("R15.j", "codec model (a): for the Tuple family serialize -> JSON transport -> deserialize, interpreted abstractly on (), (a, b), (a, [b, c]), (a, []), (a, [b, [c]]) and None, gives back "
+                      "a value of the same shape with the same elements (a list inside a tuple stays a list)", floor=1)
+    ctx.rule("R15.k", "codec model (b): the per-parameter route deserialize_parameter_value returns <parameter>.deserialize(loads(text)) for every decoded value, falsy ones included "
+                      "([], 0, '', false, {}, null)", floor=1)
     ctx.rule("R15.h", "the base codec is the identity: Parameter.serialize / Parameter.deserialize return their argument unchanged on every path (String, Selector, List, Dict, Boolean, Color rely on it; "
                       "any string, including 'null', is a legal String value)", floor=2)
     ctx.not_decided += ["value-level equality of the round trip (years < 1000, non-finite floats, int-vs-float) -- needs execution",
@@ -311,3 +315,7 @@ def run(ctx):
         ctx.info("R15.i", g, a, "`%s` writes serializer state that outlives the call (harmless only if no result depends on it)" % what)
     else:
         ctx.ok("R15.i", SER, None, "%d functions of param/serializer.py: none writes a class attribute or a module global" % n_fn)
+
+    # model-level rules, run last
+    from checks import codec_model
+    codec_model.report(ctx, "R15.j", "R15.k")
